@@ -146,11 +146,11 @@ class ExpressionFinder(Visitor):
         return self._return(o, ())
 
     def visit_VariableDeclaration(self, o, **kwargs):
-        expressions = as_tuple(super().visit(o.children, **kwargs))
+        expressions = [self.visit(c, **kwargs) for c in flatten(o.children)]
         for v in o.symbols:
             if v.type.initial is not None:
-                expressions += as_tuple(self.retrieve(v.type.initial))
-        return self._return(o, expressions)
+                expressions += [as_tuple(self.retrieve(v.type.initial))]
+        return self._return(o, as_tuple(expressions))
 
 
 class FindExpressions(ExpressionFinder):
